@@ -88,7 +88,7 @@ def _sis(i):
     for (mk, lab), (ok, norder, eorder) in combos:
         G = relabel.build_graph(n, norder, eorder, lab)
         back = {lab[u - 1]: u for u in nodes}
-        tt, rt, jt = event_sis.make_fxns(s)
+        tt, rt, jt, _js = event_sis.make_fxns(s)
         try:
             sim = EoN.fast_nonMarkov_SIS(G, trans_time_fxn=lambda a, b, rd: tt(back[a], back[b], rd), rec_time_fxn=lambda a: rt(back[a]),
                                          initial_infecteds=_bare([lab[u - 1] for u in nodes if s["init"][u - 1] == "I"]),
